@@ -241,7 +241,8 @@ func (r *BindRequestReconciler) UpdateStatus(
 		bindRequest.Status.Phase = schedulingv1alpha2.BindRequestPhaseSucceeded
 	}
 
-	if originalBindRequest.Status.Phase == bindRequest.Status.Phase {
+	if originalBindRequest.Status.Phase == bindRequest.Status.Phase &&
+		originalBindRequest.Status.FailedAttempts == bindRequest.Status.FailedAttempts {
 		return result, nil
 	}
 
